@@ -8,7 +8,7 @@ ID = "C08"
 LEVEL = "exploration"
 TECHNIQUE = "structural monitor on the dumped breakpoint tables + R1 token-line oracle + stepping run and enable probes on the VM, under ASan+UBSan"
 FLAVOURS = [("asan", "generated")]
-RULE = ("generated programs (with and without macros) in random layouts and file splits, biased towards a program header re-entering a line "
+RULE = ("generated programs (with and without macros) in random layouts and file splits, a few of them in files of up to 2^24 lines (locations beyond line 2^15, 2^16, 2^23, 2^24), biased towards a program header re-entering a line "
         "that already owns a site (END supplied by an include, header sharing a line with code); for every accepted source: location->sites and "
         "site->location must be exact inverses, listed sites = breakpoint instructions, every location is a line of a supplied file (never "
         "__standards__) on which R1 finds a token, every location reported by a stepping run is available, every available location can be "
@@ -19,7 +19,8 @@ SEPS_TIGHT = [" ", " ", " ", "\t", "  "]
 
 def plan(tier, seed):
     n = 4000 if tier == "quick" else 80000
-    return [{"seed": seed, "chunk": i, "n": 100} for i in range(n // 100)]
+    far = [{"seed": seed, "chunk": i, "n": 3, "far": True} for i in range(2 if tier == "quick" else 12)]
+    return [{"seed": seed, "chunk": i, "n": 100} for i in range(n // 100)] + far
 
 
 def biased_layout(lines, r):
@@ -55,6 +56,14 @@ def biased_layout(lines, r):
 def sources(spec):
     r = common.rng(spec["seed"], "C08", spec["chunk"])
     out = []
+    if spec.get("far"):
+        # statements standing on lines beyond 2^15, 2^16, 2^23, 2^24 of the main file or of an included file
+        ths = layouts.FAR_THRESHOLDS[:2] if spec["chunk"] % 2 == 0 else layouts.FAR_THRESHOLDS[2:]
+        for t in ths + ths[:1]:
+            lines = programs.to_lines(programs.Gen(r, programs.Opts(max_defs=2)).program(), programs.Speller(r))
+            files, main = layouts.far_program(r, lines, [t])
+            out.append((files, main, "far"))
+        return out
     for k in range(spec["n"]):
         m = k % 6
         if m == 5:
@@ -155,7 +164,9 @@ def work(spec):
         part["stats"]["enable-probes"] += len(r_.get("enable", []))
         if len(files) > 1 or any(len(ss) > 1 for _, _, ss in r_["pb"]):
             part["nontrivial"].append(harness.chash(files))
-        if len(part["samples"]) < 1 and len(files) > 2 and len(r_["pb"]) > 6:
+        if kind == "far":
+            part["stats"]["max-line-of-a-location"] = max(part["stats"]["max-line-of-a-location"], max(l for _, l, _ in r_["pb"]))
+        if len(part["samples"]) < 1 and len(files) > 2 and len(r_["pb"]) > 6 and kind != "far":
             part["samples"].append({"files": files, "location_to_sites": r_["pb"][:10]})
     return part
 
